@@ -9,8 +9,9 @@ same problem."
 
 `parse c bytes` (`Model.lean`) is total by construction; what the theorems add is that the places
 where the *Rust code* can panic — made explicit in the model as `Diag.panic k` — are unreachable
-for every byte string, with one exception that is a defect of the code (`parse_no_panic_fails`),
-and that every accepted problem is internally consistent.
+for every byte string (`parse_no_panic`; before commit a6ab3b1 of `/repo` there was one exception, a
+defect of the code found with this model and kept as `parse_no_panic_fails`), and that every
+accepted problem is internally consistent.
 
 Out of scope (see `Model.lean`): memory reservation by header counts and the recursion depth of
 `find_cycle` (known findings KF-parser-alloc, KF-parser-deep-chain).
@@ -53,41 +54,41 @@ def justiceSumWitness : Bytes :=
     (List.replicate 17
       [49, 49, 53, 50, 57, 50, 49, 53, 48, 52, 54, 48, 54, 56, 52, 54, 57, 55, 53, 10]).flatten
 
-/-! ## (a) no index out of bounds, no failing `unwrap`, no debug assertion, fuel suffices -/
+/-! ## (a) no panic: no index out of bounds, no failing `unwrap`, no overflow, no debug assertion -/
 
-/-- **parse_no_oob**: for every byte string and both settings of `check_acyclic`, the only panic
-the model can report is the arithmetic overflow of `justice_len.iter().sum()`, and only for a
-header that declares at least 17 justice properties. In particular every `Vec`/slice index
-(`aig.map[var]`, `symbol_list[i]`, `and_gate_spans[..]`, the bit set of `find_cycle`), every
-`unwrap`, every debug assertion of the `Literal` constructors is safe, all other `usize`
-additions and multiplications stay below `2^64`, and the model's fuel for the symbol table loop
-and the recursion of `find_cycle` is never exhausted. -/
-theorem parse_no_oob (c : Bool) (bytes : Bytes) (k : PanicKind)
-    (h : parse c bytes = .error (.panic k)) :
-    k = .arith ∧ ∃ hd r, header bytes = .ok (hd, r) ∧ 17 ≤ hd.just := by
-  have hs := parse_sat c bytes
-  rw [h] at hs
-  exact hs k rfl
+/-- **parse_no_panic** (the full statement (a)): for every byte string and both settings of
+`check_acyclic` the model of the parser as it is in `/repo` (after commit a6ab3b1) never reaches a
+place where the Rust code would panic: every `Vec`/slice index (`aig.map[var]`, `symbol_list[i]`,
+`counts[kind]`, `and_gate_spans[..]`, the bit set of `find_cycle`), every `unwrap`
+(`TVBitVec::push`, `gates.get(index).unwrap()`), every debug assertion of the `Literal`
+constructors is safe, every `usize` addition and multiplication stays below `2^64`, and the model's
+fuel for the symbol-table loop and the recursion of `find_cycle` is never exhausted. -/
+theorem parse_no_panic (c : Bool) (bytes : Bytes) (k : PanicKind) :
+    parse c bytes ≠ .error (.panic k) :=
+  (parse_sat c bytes).no_panic k
 
-/-- the statement "`parse c bytes ≠ .error (.panic k)` for all `bytes`" is **false** of the faithful
-model: the justice sum overflows (`attempt to add with overflow` in builds with overflow checks; in
-builds without, the sum wraps and `reserve_elements` is called with the wrapped value). Confirmed
-on the real parser, see REPORT.md of `ext-c18-parser`. -/
-theorem parse_no_panic_fails : parse true justiceSumWitness = .error (.panic .arith) :=
+/-- **parse_no_panic_fails** (regression witness): of the parser *before* commit a6ab3b1 the
+statement was false — `justice_len.iter().sum()` overflowed (`attempt to add with overflow` in
+builds with overflow checks). The witness was confirmed on the real parser before the repair; the
+stream keeps it as case `regress-justice-sum`, which must now give a diagnostic. -/
+theorem parse_no_panic_fails : parseBeforeFix true justiceSumWitness = .error (.panic .arith) :=
   isErr_eq (by decide)
 
-/-- **parse_no_panic_partial**: no panic at all when the header declares at most 16 justice
-properties (in particular for every AIGER 1.0 file) -/
-theorem parse_no_panic_partial (c : Bool) (bytes : Bytes)
-    (hj : ∀ hd r, header bytes = .ok (hd, r) → hd.just ≤ 16) (k : PanicKind) :
-    parse c bytes ≠ .error (.panic k) := by
-  intro h
-  obtain ⟨_, hd, r, hh, h17⟩ := parse_no_oob c bytes k h
-  have := hj hd r hh
-  omega
+/-- the same input is rejected with a diagnostic by the parser as it is -/
+example : isErr (parse true justiceSumWitness) .syntax = true := by decide
 
-/-- non-vacuity of `parse_no_panic_partial`: a file the hypothesis applies to and that is
-accepted -/
+/-- **parseBeforeFix_no_oob**: also before the fix that overflow was the *only* reachable panic,
+and only for a header declaring at least 17 justice properties (this is the former `parse_no_oob`;
+the former `parse_no_panic_partial` is subsumed by `parse_no_panic`) -/
+theorem parseBeforeFix_no_oob (c : Bool) (bytes : Bytes) (k : PanicKind)
+    (h : parseBeforeFix c bytes = .error (.panic k)) :
+    k = .arith ∧ ∃ hd r, header bytes = .ok (hd, r) ∧ 17 ≤ hd.just := by
+  have hs := parseCfg_sat Cfg.beforeFix c bytes
+  unfold parseBeforeFix at h
+  rw [h] at hs
+  exact ⟨(hs k rfl).1, (hs k rfl).2.2⟩
+
+/-- non-vacuity of `parse_no_panic`: the result can be a problem -/
 example : okWith (parse true exAagAnd)
     (fun p => p.gates == [(.input false 1, .input false 0)] && p.outputs == [.gate false 0] &&
       p.map == [.const false, .input false 0, .input false 1, .gate false 0]) = true := by decide
@@ -116,7 +117,8 @@ example : okWith (parse true exAigAnd)
       p.map == [.const false, .input false 0, .input false 1, .gate false 0]) = true := by decide
 
 /-- the two renderings parse to the same problem (one instance of the equivalence claim; the
-general statement is checked by the `pair` cases of the stream, see REPORT.md) -/
+statement for the combinational AIGER 1.0 subset is `aag_aig_equiv` in `Files.lean`; files with
+latches / AIGER 1.9 sections are checked by the `pair` cases of the stream) -/
 example : okWith (parse true exAagAnd) (fun p => okWith (parse true exAigAnd) (fun q => p == q)) =
     true := by decide
 
